@@ -28,6 +28,7 @@ class C08(Oracle):
             "w": w,
             "max_docs": rng.choice([1, 2]),
             "p_reuse_id": rng.choice([0.5, 0.7, 0.9]),
+            "reuse_same_kind": rng.choice([0.5, 0.9]),
             "p_anon": rng.choice([0.1, 0.4]),
             "p_clash": rng.choice([0.1, 0.4]),
             "p_extra": rng.choice([0.3, 0.7]),
